@@ -16,6 +16,7 @@ FAMILIES = {
     "prune": ("MC_Prune", None),
     "debug": ("MC_Debug", None),
     "literals": ("MC_Literals", None),
+    "names": ("MC_Names", None),
 }
 
 
@@ -52,6 +53,10 @@ def tlc_family(prop, fam, tier, seed, extra_env=None):
 def issue_property(case, issue, all_issues):
     """Which property does an observed difference contradict?"""
     at, what = issue.get("at"), issue.get("what")
+    if case.get("tag") == "names" and (at in ("new", "alt", "instantiate") or what == "verdict"):
+        return "C17"
+    if at == "roundtrip":
+        return "C16"
     if at == "new":
         if case.get("tag") == "literal":
             return "C11"
